@@ -972,6 +972,9 @@ func (c *callable) Value(env *env) reflect.Value {
 		var r = [4]int8{1, 1, 1, 1}
 		for i := range nOut {
 			typ := fn.Type.Out(i)
+			if st, ok := typ.(ScriggoType); ok {
+				typ = st.GoType()
+			}
 			results[i] = reflect.New(typ).Elem()
 			t := kindToType[typ.Kind()]
 			r[t]++
